@@ -144,12 +144,13 @@ theorem C30_violation_iff (srv : SrvCfg) (o : Opn) :
     exact ⟨_, (C30_accept_iff srv o _).mpr ⟨ha, rfl⟩, hn⟩
 
 /-- The finding signatures partition the violations: a pair that is not enabled
-    falls into exactly one of the five classes, an enabled one into none. -/
+    falls into exactly one of six classes (five are recorded findings; the sixth, policy None with a
+    signing mode, is never opened: C30_guarantees), an enabled one into none. -/
 theorem C30_classify_cover (srv : SrvCfg) (s : Sec) :
     (classify srv s = "enabled" ↔ s ∈ srv.enabled) ∧
     (s ∉ srv.enabled → classify srv s ∈
-      ["C30.accept-none-not-enabled", "C30.accept-secure-policy-mode-none", "C30.accept-invalid-mode",
-       "C30.accept-mode-not-enabled", "C30.accept-policy-not-enabled"]) := by
+      ["C30.accept-none-not-enabled", "C30.accept-none-policy-with-mode", "C30.accept-secure-policy-mode-none",
+       "C30.accept-invalid-mode", "C30.accept-mode-not-enabled", "C30.accept-policy-not-enabled"]) := by
   unfold classify
   by_cases he : s ∈ srv.enabled
   · simp [he]
@@ -160,7 +161,9 @@ theorem C30_classify_cover (srv : SrvCfg) (s : Sec) :
       · simp
       · split
         · simp
-        · split <;> simp
+        · split
+          · simp
+          · split <;> simp
 
 /-! ### the full-strength statement is false: machine-checked counterexamples -/
 
